@@ -24,8 +24,11 @@ func Fail(t TB, sig string, format string, args ...interface{}) {
 }
 
 // Main runs the tests of a package and flushes the evidence collector.
-func Main(m *testing.M) {
+func Main(m *testing.M, cleanup ...func()) {
 	code := m.Run()
+	for _, f := range cleanup {
+		f()
+	}
 	ev.C().Flush()
 	os.Exit(code)
 }
